@@ -932,7 +932,7 @@ for _cls in (PlasmaScene, BeamScene, LaserScene):
 
 
 SUBCHECKS = {
-    "plasma": Machine(PlasmaScene, quick=100, thorough=8000, steps=(20, 25), params=plasma_params),
-    "beam": Machine(BeamScene, quick=200, thorough=12000, steps=(20, 25), params=beam_params),
-    "laser": Machine(LaserScene, quick=140, thorough=8000, steps=(20, 25), params=laser_params),
+    "plasma": Machine(PlasmaScene, quick=100, thorough=4000, steps=(20, 25), params=plasma_params),
+    "beam": Machine(BeamScene, quick=200, thorough=6000, steps=(20, 25), params=beam_params),
+    "laser": Machine(LaserScene, quick=140, thorough=4000, steps=(20, 25), params=laser_params),
 }
